@@ -363,6 +363,7 @@ def obligations(ctx):
     decoders_obligation(ctx)
     wrappers_obligation(ctx)
     text_slicing_obligation(ctx)
+    base58_obligation(ctx)
 
 
 def decoders_obligation(ctx):
@@ -747,3 +748,57 @@ def text_slicing_obligation(ctx):
                 "Outside the engine's reach (not claimed): %s" % (len(fns), ", ".join(okf) or "none", "; ".join("%s [%s]" % kv for kv in sorted(outside.items())) or "none"))
     ctx.log("  [E2] text slicing: %d functions with a string cut, %d executed, outside: %s" % (len(fns), len(okf), {k: v[:70] for k, v in outside.items()}))
     ob.finish(Engine(P))
+
+
+# ---------------------------------------------------------------- the crate's own Base58 decoder (behind ByronAddress::from_base58 / is_valid)
+B58 = b"123456789ABCDEFGHJKLMNPQRSTUVWXYZabcdefghijkmnopqrstuvwxyz"
+
+
+def base58_obligation(ctx):
+    """legacy_address::base58::base_decode is crate code (big-number arithmetic over a byte vector, leading-zero bookkeeping with
+    subtractions on counts): executed from MIR on every input of 0..2 arbitrary bytes (quick: 0..1) and on runs of the zero symbol
+    '1' of length 1..6, alone and followed by one arbitrary byte; no path may panic (index, subtraction / shift overflow)."""
+    from prove import Obligation
+    from engine import Engine, VSeq, VInt, VRef, Cell, Unsupported
+    import z3
+    P = ctx.P
+    ob = Obligation(ctx, "c02_e2_base58_decode_total", "every input of 0..%d arbitrary bytes; runs of 1..6 zero symbols alone and followed by one arbitrary byte" % (2 if ctx.tier == "thorough" else 1),
+                    ["legacy_address::base58::base_decode"], fallback_native="e2n_c02_text_battery")
+    agg = Engine(P)
+    cands = [d for d in P.fns if re.search(r"(^|::)base_decode$", d)]
+    if not cands:
+        ob.fail("base_decode not found in the MIR"); ob.finish(agg); return
+    shapes = [("%d arbitrary bytes" % n, [None] * n) for n in ((0, 1, 2) if ctx.tier == "thorough" else (0, 1))]
+    for k in range(1, 7):
+        shapes.append(("%d zero symbols" % k, [0x31] * k))
+        shapes.append(("%d zero symbols + 1 arbitrary byte" % k, [0x31] * k + [None]))
+    nret = 0
+    for what, shape in shapes:
+        E = Engine(P, max_loop=70)
+        E.U = agg.U
+        E.extra_intrinsics[r"<impl str>::as_bytes$"] = lambda E_, c, a: a[0]
+        sym = [E.sym_int("byte%d" % i, "u8") if b is None else None for i, b in enumerate(shape)]
+        def mk(E=E, shape=shape, sym=sym):
+            alpha = VSeq([VInt(z3.IntVal(b), "u8") for b in B58], "vec")
+            inp = VSeq([VInt(sym[i].t if b is None else z3.IntVal(b), "u8") for i, b in enumerate(shape)], "vec")
+            return [VRef(Cell(alpha, "alphabet")), VRef(Cell(inp, "input"))]
+        try:
+            outs = E.explore(cands[0], mk, max_paths=8000)
+        except Unsupported as e:
+            ob.fail("%s: base_decode cannot be executed (%s)" % (what, str(e)[:160])); continue
+        for o in outs:
+            if o.kind == "return":
+                nret += 1
+            elif o.kind == "bound":
+                ob.fail("%s: loop bound reached" % what)
+            else:
+                ob.vc("%s: no panic in base_decode (%s %s)" % (what, o.kind, o.msg[:80]), o.pc, z3.BoolVal(False), info=dict(shape=shape))
+        agg.stats["paths"] += E.stats["paths"]; agg.stats["feasibility_queries"] += E.stats["feasibility_queries"]; agg.stats["functions"] |= E.stats["functions"]
+    if nret < 50:
+        ob.fail("only %d returning paths" % nret)
+    def nat(m, info=None):
+        shape = (info or {}).get("shape", [])
+        bs = [b if b is not None else (m.eval(z3.Int("byte%d" % i), model_completion=True).as_long() if m is not None else 0x31) for i, b in enumerate(shape)]
+        name = b"ByronBase58"
+        return "e2n_c02_text", [[len(name)]] + [[x] for x in name] + [[len(bs) & 0xff, len(bs) >> 8]] + [[x] for x in bs]
+    ob.finish(agg, nat)
